@@ -1,6 +1,6 @@
 import DdsModel.Split
 import DdsModel.Drv.Util
-namespace Dds.Drv
+namespace Dds.Drv.C14
 open Dds
 
 def parseDith : String → Option Dithering
@@ -55,4 +55,8 @@ def runC14 (line : String) : String :=
     | _, _, _, _, _ => "bad-case"
   | _ => "bad-case"
 
+end Dds.Drv.C14
+
+namespace Dds.Drv
+def runC14 : String → String := C14.runC14
 end Dds.Drv
